@@ -339,4 +339,4 @@ class ChildKill(Sub):
                       sample={"history": history, "mutations_per_event": muts}, evals=max(len(points), 1), nt_hashes=nts)
 
 
-SUBCHECKS = [Faults("error", 48, 1200), Faults("kill", 48, 1200), ChildKill()]
+SUBCHECKS = [Faults("error", 48, 384), Faults("kill", 48, 384), ChildKill()]
